@@ -46,6 +46,7 @@ let fld_name f = str_of_bytes (name_of f)
 let err_str (e : cerr) : string =
   match e with
   | ENotFound -> "err:notfound"
+  | ENotFoundNonEmpty -> "err:nonempty"
   | EInvalidManifest -> "err:manifest"
   | EInvalidConfig f -> "err:config:" ^ fld_name f
   | EMarshal -> "err:marshal"
@@ -156,8 +157,11 @@ let run (id : string) (_hdr : string list) (lines : string list list) (out : str
           | Ok c ->
             pr "O ok";
             eng := Some c;
+            (* the storage manager creates its WAL/SSTable directories inside the database directory *)
+            dir := { !dir with d_other = [ (c.c_wal_dir, []) ] };
             let w = str_of_bytes c.c_wal_dir in
             if not (Stdlib.List.mem w !used) then used := Stdlib.List.sort compare (w :: !used)
+          | Err ENotFoundNonEmpty -> pr "O err:nonempty"; eng := None
           | Err EInvalidManifest -> pr "O err:manifest"; eng := None
           | Err (EInvalidConfig _) -> pr "O err:config"; eng := None
           | Err _ -> pr "O err:other"; eng := None);
